@@ -723,6 +723,717 @@ Section Sim.
         stepspos F.
     Qed.
 
-(*PARTC*)
+
+    Lemma all_expr_ok (kw : list (str * expr)) : Forall (fun ke => expr_ok (snd ke)) kw.
+    Proof. apply Forall_forall. intros ke _. apply expr_correct. Qed.
+
+    (* ----- statements ----- *)
+    Lemma exec_seq_cons ex s t en :
+      exec_seq ex (s :: t) en
+      = match ex s en with
+        | ROk (en1, t1, SigNormal) =>
+            match exec_seq ex t en1 with
+            | ROk (en2, t2, sg) => ROk (en2, t1 ++ t2, sg)
+            | RErr x => RErr x
+            end
+        | r => r
+        end.
+    Proof. reflexivity. Qed.
+
+    Lemma exec_iter_cons body key val n it rest i en :
+      exec_iter body key val n (it :: rest) i en
+      = match body (push_loop en {| ls_key_name := key; ls_val_name := val; ls_item := it;
+                                    ls_index0 := i; ls_length := n; ls_locals := [] |}) with
+        | RErr x => RErr x
+        | ROk (en1, t1, SigBreak) => ROk (pop_loop en1, t1, SigNormal)
+        | ROk (en1, t1, _) =>
+            match exec_iter body key val n rest (S i) (pop_loop en1) with
+            | ROk (en2, t2, sg) => ROk (en2, t1 ++ t2, sg)
+            | RErr x => RErr x
+            end
+        end.
+    Proof. reflexivity. Qed.
+
+    (* the enclosing loop, as the compiler sees it: (index of its Iterate, its loop_end) *)
+    Definition lp_ok (lp : option (nat * nat)) (l : list loop_frame) : Prop :=
+      match lp with
+      | Some (_, le) => exists fr t, l = fr :: t /\ lf_end_ip fr = le
+      | None => True
+      end.
+
+    Definition target (pc_end : nat) (lp : option (nat * nat)) (sg : signal) : option nat :=
+      match sg, lp with
+      | SigNormal, _ => Some pc_end
+      | SigBreak, Some (_, le) => Some le
+      | SigContinue, Some (ls, _) => Some ls
+      | _, None => None
+      end.
+
+    (* what running a statement from (pc, s0) must do, given the reference outcome r computed in
+       the environment described by (l, sv); c, o: where output goes *)
+    Definition result_ok (pc : nat) (s0 : state) (pc_end : nat) (lp : option (nat * nat))
+               (b : state) (stk : list value) (l : list loop_frame) (sv : ctx) (c : list str) (o : sink W)
+               (r : outcome) : Prop :=
+      match r with
+      | RErr _ => fails pc s0 o
+      | ROk (env', text, sg) =>
+          exists l' sv', env' = absE b l' sv' /\ frames_eq l l' /\
+            match target pc_end lp sg with
+            | Some t => steps pc s0 o t (mk b stk l' sv' (out_caps c text)) (out_sink c o text)
+            | None => False
+            end
+      end.
+
+    Lemma result_ok_wrap pc s0 pc1 s1 pe1 pe2 lp b stk l sv c o r :
+      steps pc s0 o pc1 s1 o ->
+      result_ok pc1 s1 pe1 lp b stk l sv c o r ->
+      (forall s' o', steps pe1 s' o' pe2 s' o') ->
+      result_ok pc s0 pe2 lp b stk l sv c o r.
+    Proof.
+      intros S0 Hr Hs. destruct r as [[[en1 t1] sg]|x]; cbn [result_ok] in *.
+      - destruct Hr as (l' & sv' & He & Hf & Ht). exists l', sv'. split; [exact He|]. split; [exact Hf|].
+        destruct sg, lp as [[ls le]|]; cbn [target] in *;
+          first [ exact Ht
+                | (eapply steps_trans; [exact S0|]; eapply steps_trans; [exact Ht|apply Hs])
+                | (eapply steps_trans; [exact S0|exact Ht]) ].
+      - eapply steps_fails; [exact S0|exact Hr].
+    Qed.
+
+    Definition pre (lex : bool) (lp : option (nat * nat)) (b : state) (l : list loop_frame) : Prop :=
+      (lex = true -> l <> []) /\ Forall frame_ok l /\ parent_ok b /\ lp_ok lp l.
+
+    Lemma pre_frames_eq lex lp b l l' : frames_eq l l' -> pre lex lp b l -> pre lex lp b l'.
+    Proof.
+      intros Hf (H1 & H2 & H3 & H4). split; [|split; [|split]].
+      - intros Hl. eapply frames_eq_nonempty; [exact Hf|auto].
+      - eapply frames_eq_ok; eassumption.
+      - exact H3.
+      - destruct lp as [[ls le]|]; [|exact I]. destruct H4 as (fr & t & -> & He).
+        inversion Hf as [|? f' ? t' [cx ->] Ht]; subst. exists (lf_set_ctx fr cx), t'. split; [reflexivity|first [exact He|reflexivity]].
+    Qed.
+
+    Definition stmt_ok (s : stmt) : Prop :=
+      forall lex lp pc b stk l sv c o,
+        wf_stmt lex (is_some lp) s = true -> pre lex lp b l ->
+        code_at pc (compile_node pc (option_map fst lp) s) ->
+        result_ok pc (mk b stk l sv c) (pc + length (compile_node pc (option_map fst lp) s)) lp b stk l sv c o
+                  (exec B aesc inc s (absE b l sv)).
+
+    Definition list_ok (body : list stmt) : Prop :=
+      forall lex lp pc b stk l sv c o,
+        forallb (wf_stmt lex (is_some lp)) body = true -> pre lex lp b l ->
+        code_at pc (compile_seq compile_node pc (option_map fst lp) body) ->
+        result_ok pc (mk b stk l sv c) (pc + length (compile_seq compile_node pc (option_map fst lp) body)) lp
+                  b stk l sv c o (exec_list B aesc inc body (absE b l sv)).
+
+    Lemma list_from_stmts body : Forall stmt_ok body -> list_ok body.
+    Proof.
+      induction 1 as [|s t Hs _ IH]; intros lex lp pc b stk l sv c o Hwf Hpre Hc.
+      - cbn. exists l, sv. split; [reflexivity|]. split; [apply frames_eq_refl|].
+        rewrite out_caps_nil, out_sink_nil. replace (pc + 0) with pc by lia. apply steps_refl.
+      - cbn [forallb] in Hwf. apply andb_prop in Hwf as [Hw1 Hw2].
+        rewrite compile_seq_cons in *. apply code_at_app in Hc as [Hc1 Hc2].
+        unfold exec_list. rewrite exec_seq_cons.
+        specialize (Hs lex lp pc b stk l sv c o Hw1 Hpre Hc1).
+        destruct (exec B aesc inc s (absE b l sv)) as [[[en1 t1] sg1]|x]; [|exact Hs].
+        cbn [result_ok] in Hs. destruct Hs as (l1 & sv1 & -> & Hf1 & Ht1).
+        destruct sg1.
+        + cbn [target] in Ht1.
+          specialize (IH lex lp _ b stk l1 sv1 (out_caps c t1) (out_sink c o t1) Hw2
+                         (pre_frames_eq _ _ _ _ _ Hf1 Hpre) Hc2).
+          unfold exec_list in IH.
+          destruct (exec_seq (exec B aesc inc) t (absE b l1 sv1)) as [[[en2 t2] sg2]|x]; cbn [result_ok] in *.
+          * destruct IH as (l2 & sv2 & -> & Hf2 & Ht2). exists l2, sv2. split; [reflexivity|].
+            split; [eapply frames_eq_trans; eassumption|].
+            rewrite out_caps_app, out_sink_app in Ht2. rewrite app_length.
+            destruct sg2, lp as [[ls le]|]; cbn [target] in *;
+              first [ exact Ht2
+                    | (eapply steps_trans; [exact Ht1|]; stepspos Ht2)
+                    | (eapply steps_trans; [exact Ht1|exact Ht2]) ].
+          * eapply steps_fails; [exact Ht1|exact IH].
+        + cbn [result_ok]. exists l1, sv1. split; [reflexivity|]. split; [exact Hf1|].
+          destruct lp as [[ls le]|]; cbn [target] in *; exact Ht1.
+        + cbn [result_ok]. exists l1, sv1. split; [reflexivity|]. split; [exact Hf1|].
+          destruct lp as [[ls le]|]; cbn [target] in *; exact Ht1.
+    Qed.
+
+    (* break/continue-free bodies compile the same whatever the enclosing loop *)
+    Lemma compile_lp_irrel : forall s lex pc lp, wf_stmt lex false s = true ->
+      compile_node pc lp s = compile_node pc None s.
+    Proof.
+      induction s using stmt_ind'; intros lex pc lp Hwf; try reflexivity.
+      all: assert (Hseq : forall body, Forall (fun s => forall lex pc lp, wf_stmt lex false s = true ->
+                    compile_node pc lp s = compile_node pc None s) body ->
+                  forall lex pc lp, forallb (wf_stmt lex false) body = true ->
+                    compile_seq compile_node pc lp body = compile_seq compile_node pc None body)
+        by (induction 1 as [|x0 t0 Hx _ IHt]; intros lex' pc' lp' Hw; [reflexivity|];
+            cbn [forallb] in Hw; apply andb_prop in Hw as [Hw1 Hw2];
+            rewrite !compile_seq_cons, (Hx lex' pc' lp' Hw1), (IHt lex' _ lp' Hw2); reflexivity).
+      - (* SIf *)
+        cbn [wf_stmt] in Hwf. apply andb_prop in Hwf as [Hwf Hw3]. apply andb_prop in Hwf as [Hw1 Hw2].
+        cbn [compile_node]. rewrite (Hseq b H lex _ lp Hw2).
+        destruct e as [|s0 r]; [reflexivity|]. rewrite (Hseq _ H0 lex _ lp Hw3). reflexivity.
+      - (* SFor *)
+        cbn [wf_stmt] in Hwf. apply andb_prop in Hwf as [Hwf Hw3].
+        cbn [compile_node]. destruct e as [|s0 r]; [reflexivity|]. rewrite (Hseq _ H0 lex _ lp Hw3). reflexivity.
+      - (* SSetBlock *)
+        cbn [wf_stmt] in Hwf. apply andb_prop in Hwf as [Hw1 _].
+        cbn [compile_node]. rewrite (Hseq b H lex _ lp Hw1). reflexivity.
+      - (* SFilter *)
+        cbn [wf_stmt] in Hwf. apply andb_prop in Hwf as [_ Hw1].
+        cbn [compile_node]. rewrite (Hseq b H lex _ lp Hw1). reflexivity.
+      - discriminate.
+    Qed.
+
+    Lemma compile_seq_lp_irrel body lex pc lp : forallb (wf_stmt lex false) body = true ->
+      compile_seq compile_node pc lp body = compile_seq compile_node pc None body.
+    Proof.
+      revert pc. induction body as [|x t IH]; intros pc Hw; [reflexivity|].
+      cbn [forallb] in Hw. apply andb_prop in Hw as [Hw1 Hw2].
+      rewrite !compile_seq_cons, (compile_lp_irrel x lex pc lp Hw1), (IH _ Hw2). reflexivity.
+    Qed.
+
+    (* the filters of a set block, applied to the value on top of the stack *)
+    Lemma filters_ok : forall fs lex pc b stk l sv c o v,
+      forallb (fun f => wf_kws lex (snd f)) fs = true -> (lex = true -> l <> []) -> Forall frame_ok l ->
+      parent_ok b -> code_at pc (compile_filters pc fs) ->
+      match apply_filters B fs v (absE b l sv) with
+      | ROk r => steps pc (mk b (v :: stk) l sv c) o (pc + length (compile_filters pc fs)) (mk b (r :: stk) l sv c) o
+      | RErr _ => fails pc (mk b (v :: stk) l sv c) o
+      end.
+    Proof.
+      induction fs as [|[name kw] t IH]; intros lex pc b stk l sv c o v Hwf Hlex Hfr Hpar Hc.
+      - cbn. replace (pc + 0) with pc by lia. apply steps_refl.
+      - cbn [forallb snd] in Hwf. apply andb_prop in Hwf as [Hw1 Hw2].
+        cbn [compile_filters apply_filters] in *. unfold compile_kwargs in *.
+        rewrite <- !app_assoc in *. cbn [app] in *.
+        replace ((compile_kws compile_expr pc kw ++ [BuildMap (length kw); ApplyFilter name]) ++
+                 compile_filters (pc + length (compile_kws compile_expr pc kw ++ [BuildMap (length kw); ApplyFilter name])) t)
+          with (compile_kws compile_expr pc kw ++ BuildMap (length kw) :: ApplyFilter name ::
+                 compile_filters (pc + length (compile_kws compile_expr pc kw ++ [BuildMap (length kw); ApplyFilter name])) t)
+          in * by (rewrite <- app_assoc; reflexivity).
+        assert (Hc' : code_at pc (compile_kws compile_expr pc kw ++ [BuildMap (length kw); ApplyFilter name])
+                      /\ code_at (pc + length (compile_kws compile_expr pc kw) + 2)
+                           (compile_filters (pc + length (compile_kws compile_expr pc kw ++ [BuildMap (length kw); ApplyFilter name])) t)).
+        { apply code_at_app in Hc as [Ha Hb]. apply code_at_cons in Hb as [Hb1 Hb]. apply code_at_cons in Hb as [Hb2 Hb].
+          split.
+          - intros i x Hi. destruct (Nat.lt_ge_cases i (length (compile_kws compile_expr pc kw))) as [Hlt|Hge].
+            + apply Ha. rewrite nth_error_app1 in Hi by exact Hlt. exact Hi.
+            + rewrite nth_error_app2 in Hi by exact Hge.
+              destruct (i - length (compile_kws compile_expr pc kw)) as [|[|k]] eqn:Ek; cbn in Hi.
+              * inversion Hi; subst. replace (pc + i) with (pc + length (compile_kws compile_expr pc kw)) by lia. exact Hb1.
+              * inversion Hi; subst. replace (pc + i) with (S (pc + length (compile_kws compile_expr pc kw))) by lia. exact Hb2.
+              * destruct k; discriminate.
+          - replace (pc + length (compile_kws compile_expr pc kw) + 2)
+              with (S (S (pc + length (compile_kws compile_expr pc kw)))) by lia. exact Hb. }
+        destruct Hc' as [Hc1 Hc2].
+        pose proof (filter_ok kw name (all_expr_ok kw) lex pc b stk l sv c o v Hw1 Hlex Hfr Hpar Hc1) as F.
+        destruct (eval_kws (fun x => eval B x (absE b l sv)) kw) as [kws|x]; [|exact F].
+        destruct (apply_filter B name v kws) as [r|x]; [|exact F].
+        assert (Hlen : pc + length (compile_kws compile_expr pc kw ++ [BuildMap (length kw); ApplyFilter name])
+                       = pc + length (compile_kws compile_expr pc kw) + 2) by (rewrite app_length; cbn [length]; lia).
+        rewrite Hlen in *.
+        specialize (IH lex _ b stk l sv c o r Hw2 Hlex Hfr Hpar Hc2).
+        destruct (apply_filters B t r (absE b l sv)) as [r2|x].
+        + eapply steps_trans; [exact F|]. rewrite app_length. cbn [length]. stepspos IH.
+        + eapply steps_fails; [exact F|exact IH].
+    Qed.
+
+    (* ----- for loops ----- *)
+    Definition iter_frame (key : option str) (val : str) (n le i : nat) (it : option value * value)
+               (rest : list (option value * value)) : loop_frame :=
+      {| lf_rest := rest; lf_index0 := i; lf_first := Nat.eqb i 0; lf_last := Nat.eqb (S i) n;
+         lf_length := n; lf_end_ip := le; lf_context := []; lf_value_name := val; lf_key_name := key;
+         lf_current := it; lf_iterated := true; lf_is_comp := false |}.
+
+    Definition init_frame (key : option str) (val : str) (items : list (option value * value)) : loop_frame :=
+      {| lf_rest := items; lf_index0 := 0; lf_first := true; lf_last := Nat.eqb (length items) 1;
+         lf_length := length items; lf_end_ip := 0; lf_context := []; lf_value_name := val;
+         lf_key_name := key; lf_current := (None, VUndef); lf_iterated := false; lf_is_comp := false |}.
+
+    (* the innermost frame when control is at the loop's Iterate, about to start iteration i *)
+    Definition loop_inv key val n le (f : loop_frame) (i : nat) (rest : list (option value * value)) : Prop :=
+      (i = 0 /\ f = init_frame key val rest /\ n = length rest) \/
+      (exists i0 itp cx, i = S i0 /\ f = lf_set_ctx (iter_frame key val n le i0 itp rest) cx).
+
+    Lemma inv_rest key val n le f i rest : loop_inv key val n le f i rest -> lf_rest f = rest.
+    Proof. intros [(_ & -> & _)|(i0 & itp & cx & _ & ->)]; reflexivity. Qed.
+
+    Lemma inv_advance key val n le f i it rest : le <> 0 ->
+      loop_inv key val n le f i (it :: rest) -> lf_advance f le = iter_frame key val n le i it rest.
+    Proof.
+      intros Hle [(-> & -> & ->)|(i0 & itp & cx & -> & ->)].
+      - unfold lf_advance, init_frame, iter_frame. cbn -[Nat.eqb]. change (0 =? 0) with true. cbn [negb].
+        rewrite (Nat.eqb_sym 1 (S (length rest))). reflexivity.
+      - unfold lf_advance, iter_frame, lf_set_ctx. cbn -[Nat.eqb].
+        assert (Hz : Nat.eqb le 0 = false) by (apply Nat.eqb_neq; exact Hle). rewrite Hz. reflexivity.
+    Qed.
+
+    Lemma header_frame key val items : val <> [] ->
+      match key with
+      | Some k => lf_store_local (lf_store_local (new_loop items false) val) k
+      | None => lf_store_local (new_loop items false) val
+      end = init_frame key val items.
+    Proof. intros Hv. destruct val as [|x xs]; [congruence|]. destruct key; reflexivity. Qed.
+
+    (* the loop proper: from the Iterate instruction to loop_end, for the remaining items *)
+    Lemma for_loop_sim key val n body start le b stk :
+      list_ok body -> le <> 0 ->
+      nth_error ch start = Some (Iterate le) ->
+      code_at (S start) (compile_seq compile_node (S start) (Some start) body) ->
+      nth_error ch (S start + length (compile_seq compile_node (S start) (Some start) body)) = Some (Jump start) ->
+      forallb (wf_stmt true true) body = true -> parent_ok b ->
+      forall rest i f l sv c o,
+        loop_inv key val n le f i rest -> (rest = [] -> lf_iterated f = true) -> Forall frame_ok l ->
+        match exec_iter (exec_list B aesc inc body) key val n rest i (absE b l sv) with
+        | RErr _ => fails start (mk b stk (f :: l) sv c) o
+        | ROk (env', text, sg) =>
+            sg = SigNormal /\ exists f' l' sv', env' = absE b l' sv' /\ frames_eq l l' /\ lf_iterated f' = true /\
+              steps start (mk b stk (f :: l) sv c) o le (mk b stk (f' :: l') sv' (out_caps c text)) (out_sink c o text)
+        end.
+    Proof.
+      intros Hbody Hle Hit Hcb Hjmp Hwf Hpar. induction rest as [|it rest IH]; intros i f l sv c o Hinv Hiter Hfr.
+      - cbn. split; [reflexivity|]. exists f, l, sv. split; [reflexivity|]. split; [apply frames_eq_refl|].
+        split; [apply Hiter; reflexivity|]. rewrite out_caps_nil, out_sink_nil.
+        apply step1. intros fu. erewrite run_Iterate by exact Hit. rewrite (inv_rest _ _ _ _ _ _ _ Hinv). reflexivity.
+      - rewrite exec_iter_cons.
+        set (fa := iter_frame key val n le i it rest).
+        assert (S0 : steps start (mk b stk (f :: l) sv c) o (S start) (mk b stk (fa :: l) sv c) o).
+        { apply step1. intros fu. erewrite run_Iterate by exact Hit. rewrite (inv_rest _ _ _ _ _ _ _ Hinv).
+          rewrite (inv_advance _ _ _ _ _ _ _ _ Hle Hinv). reflexivity. }
+        assert (Hpre : pre true (Some (start, le)) b (fa :: l)).
+        { split; [discriminate|]. split; [constructor; [repeat split|exact Hfr]|]. split; [exact Hpar|].
+          exists fa, l. split; reflexivity. }
+        pose proof (Hbody true (Some (start, le)) (S start) b stk (fa :: l) sv c o Hwf Hpre Hcb) as Hb.
+        change (push_loop (absE b l sv)
+                  {| ls_key_name := key; ls_val_name := val; ls_item := it; ls_index0 := i; ls_length := n; ls_locals := [] |})
+          with (absE b (fa :: l) sv).
+        cbn [option_map fst] in Hb.
+        destruct (exec_list B aesc inc body (absE b (fa :: l) sv)) as [[[en1 t1] sg1]|x]; cbn [result_ok] in Hb.
+        2:{ eapply steps_fails; [exact S0|exact Hb]. }
+        destruct Hb as (lb & sv1 & -> & Hf1 & Ht1).
+        inversion Hf1 as [|? fa' ? l1 [cx ->] Hfl]; subst.
+        assert (Hnext : forall c1 o1,
+          steps start (mk b stk (f :: l) sv c) o start (mk b stk (lf_set_ctx fa cx :: l1) sv1 c1) o1 ->
+          match exec_iter (exec_list B aesc inc body) key val n rest (S i) (absE b l1 sv1) with
+          | RErr _ => fails start (mk b stk (f :: l) sv c) o
+          | ROk (en2, t2, sg) =>
+              sg = SigNormal /\ exists f' l' sv', en2 = absE b l' sv' /\ frames_eq l l' /\ lf_iterated f' = true /\
+                steps start (mk b stk (f :: l) sv c) o le (mk b stk (f' :: l') sv' (out_caps c1 t2)) (out_sink c1 o1 t2)
+          end).
+        { intros c1 o1 Hs.
+          assert (Hinv' : loop_inv key val n le (lf_set_ctx fa cx) (S i) rest).
+          { right. exists i, it, cx. split; reflexivity. }
+          specialize (IH (S i) (lf_set_ctx fa cx) l1 sv1 c1 o1 Hinv' (fun _ => eq_refl) (frames_eq_ok _ _ Hfl Hfr)).
+          destruct (exec_iter (exec_list B aesc inc body) key val n rest (S i) (absE b l1 sv1)) as [[[en2 t2] sg2]|x].
+          - destruct IH as (-> & f' & l' & sv' & -> & Hf2 & Hi2 & Hs2). split; [reflexivity|].
+            exists f', l', sv'. split; [reflexivity|]. split; [eapply frames_eq_trans; eassumption|].
+            split; [exact Hi2|]. eapply steps_trans; [exact Hs|exact Hs2].
+          - eapply steps_fails; [exact Hs|exact IH]. }
+        change (pop_loop (absE b (lf_set_ctx fa cx :: l1) sv1)) with (absE b l1 sv1).
+        destruct sg1; cbn [target] in Ht1.
+        + (* the body fell through: Jump start *)
+          specialize (Hnext (out_caps c t1) (out_sink c o t1)).
+          assert (Hs : steps start (mk b stk (f :: l) sv c) o start
+                         (mk b stk (lf_set_ctx fa cx :: l1) sv1 (out_caps c t1)) (out_sink c o t1)).
+          { eapply steps_trans; [exact S0|]. eapply steps_step; [exact Ht1|]. intros fu.
+            eapply run_Jump. exact Hjmp. }
+          specialize (Hnext Hs).
+          destruct (exec_iter (exec_list B aesc inc body) key val n rest (S i) (absE b l1 sv1)) as [[[en2 t2] sg2]|x];
+            [|exact Hnext].
+          rewrite out_caps_app, out_sink_app in Hnext. exact Hnext.
+        + (* break *)
+          split; [reflexivity|]. exists (lf_set_ctx fa cx), l1, sv1. split; [reflexivity|]. split; [exact Hfl|].
+          split; [reflexivity|]. eapply steps_trans; [exact S0|exact Ht1].
+        + (* continue *)
+          specialize (Hnext (out_caps c t1) (out_sink c o t1)).
+          assert (Hs : steps start (mk b stk (f :: l) sv c) o start
+                         (mk b stk (lf_set_ctx fa cx :: l1) sv1 (out_caps c t1)) (out_sink c o t1)).
+          { eapply steps_trans; [exact S0|exact Ht1]. }
+          specialize (Hnext Hs).
+          destruct (exec_iter (exec_list B aesc inc body) key val n rest (S i) (absE b l1 sv1)) as [[[en2 t2] sg2]|x];
+            [|exact Hnext].
+          rewrite out_caps_app, out_sink_app in Hnext. exact Hnext.
+    Qed.
+
+    (* what follows loop_end *)
+    Definition for_exit (le : nat) (lp : option nat) (els : list stmt) : list instr :=
+      match els with
+      | [] => [PopLoop]
+      | _ => [StoreDidNotIterate; PopLoop; PopJumpIfFalse (le + 3 + length (compile_seq compile_node (le + 3) lp els))]
+               ++ compile_seq compile_node (le + 3) lp els
+      end.
+
+    Lemma compile_for_eq pc lp key val target body els :
+      compile_node pc lp (SFor key val target body els)
+      = let ct := compile_expr pc target in
+        let hdr := [StartIterate (is_some key); StoreLocal val] ++ match key with Some k => [StoreLocal k] | None => [] end in
+        let start := pc + length ct + length hdr in
+        let cb := compile_seq compile_node (S start) (Some start) body in
+        let le := S start + length cb + 1 in
+        ct ++ hdr ++ [Iterate le] ++ cb ++ [Jump start] ++ for_exit le lp els.
+    Proof.
+      cbn [compile_node]. cbv zeta. destruct els as [|s0 r]; cbn [for_exit].
+      - rewrite <- !app_assoc. reflexivity.
+      - rewrite <- !app_assoc. reflexivity.
+    Qed.
+
+    Lemma exit_iterated le lp els b stk f l sv c o : lf_iterated f = true ->
+      code_at le (for_exit le lp els) ->
+      steps le (mk b stk (f :: l) sv c) o (le + length (for_exit le lp els)) (mk b stk l sv c) o.
+    Proof.
+      intros Hi Hc. destruct els as [|s0 r]; cbn [for_exit app length] in *.
+      - apply code_at_cons in Hc as [H1 _]. replace (le + 1) with (S le) by lia.
+        apply step1. intros fu. eapply run_PopLoop. exact H1.
+      - apply code_at_cons in Hc as [H1 Hc]. apply code_at_cons in Hc as [H2 Hc]. apply code_at_cons in Hc as [H3 _].
+        eapply steps_trans.
+        { apply step1. intros fu. eapply run_StoreDidNotIterate. exact H1. }
+        eapply steps_trans.
+        { apply step1. intros fu. eapply run_PopLoop. exact H2. }
+        apply step1. intros fu. erewrite run_PopJumpIfFalse by exact H3. rewrite Hi. cbn [negb is_truthy]. runpos.
+    Qed.
+
+    Lemma exit_empty le lp0 els lex b stk f l sv c o : lf_iterated f = false ->
+      code_at le (for_exit le (option_map fst lp0) els) -> list_ok els ->
+      forallb (wf_stmt lex (is_some lp0)) els = true -> pre lex lp0 b l ->
+      result_ok le (mk b stk (f :: l) sv c) (le + length (for_exit le (option_map fst lp0) els)) lp0 b stk l sv c o
+                (exec_list B aesc inc els (absE b l sv)).
+    Proof.
+      intros Hi Hc Hels Hwf Hpre. destruct els as [|s0 r]; cbn [for_exit app length] in *.
+      - apply code_at_cons in Hc as [H1 _]. cbn. exists l, sv. split; [reflexivity|]. split; [apply frames_eq_refl|].
+        rewrite out_caps_nil, out_sink_nil. replace (le + 1) with (S le) by lia.
+        apply step1. intros fu. eapply run_PopLoop. exact H1.
+      - apply code_at_cons in Hc as [H1 Hc]. apply code_at_cons in Hc as [H2 Hc]. apply code_at_cons in Hc as [H3 Hc].
+        replace (S (S (S le))) with (le + 3) in Hc by lia.
+        eapply result_ok_wrap with (pc1 := le + 3) (s1 := mk b stk l sv c).
+        + eapply steps_trans.
+          { apply step1. intros fu. eapply run_StoreDidNotIterate. exact H1. }
+          eapply steps_trans.
+          { apply step1. intros fu. eapply run_PopLoop. exact H2. }
+          apply step1. intros fu. erewrite run_PopJumpIfFalse by exact H3. rewrite Hi. cbn [negb is_truthy]. runpos.
+        + apply (Hels lex lp0 (le + 3) b stk l sv c o Hwf Hpre Hc).
+        + intros s' o'. match goal with |- steps ?p _ _ ?q _ _ => replace q with p by lia end. apply steps_refl.
+    Qed.
+
+    (* ----- include ----- *)
+    Lemma run_Include f pc b stk l sv c o name : nth_error ch pc = Some (Include name) ->
+      R (S f) pc (mk b stk l sv c) o
+      = match assoc_get (w_templates wd) name with
+        | None => RFail ErrOther
+        | Some t2 =>
+            let st := inc_state (Scope l sv (parent b) (context b) (global b)) (context b) in
+            match c with
+            | [] => match run W wr wd f t2 ae depth (t_chunk t2) 0 st o with
+                    | RDone _ o1 => R f (S pc) (mk b stk l sv []) o1
+                    | RFail e => RFail e
+                    | ROutOfFuel => ROutOfFuel
+                    end
+            | c0 :: ct => match run W wr wd f t2 ae depth (t_chunk t2) 0 st (SinkBuf c0) with
+                          | RDone _ (SinkBuf c1) => R f (S pc) (mk b stk l sv (c1 :: ct)) o
+                          | RDone _ (SinkTop _) => RFail ErrPanic
+                          | RFail e => RFail e
+                          | ROutOfFuel => ROutOfFuel
+                          end
+            end
+        end.
+    Proof.
+      intros H. cbn [run]. rewrite H. destruct (assoc_get (w_templates wd) name); [|reflexivity].
+      destruct c; reflexivity.
+    Qed.
+
+    (* the meaning `inc` the reference interpreter gives to included templates is what the VM
+       computes for them (discharged for template libraries below) *)
+    Definition inc_sim : Prop :=
+      forall name b l sv (o : sink W), Forall frame_ok l -> parent_ok b ->
+        match assoc_get (w_templates wd) name with
+        | None => exists x, inc name (absE b l sv) = RErr x
+        | Some t2 =>
+            let st := inc_state (Scope l sv (parent b) (context b) (global b)) (context b) in
+            match inc name (absE b l sv) with
+            | RErr _ => exists n e, forall k, run W wr wd (n + k) t2 ae depth (t_chunk t2) 0 st o = RFail e
+            | ROk text => exists n s', forall k,
+                run W wr wd (n + k) t2 ae depth (t_chunk t2) 0 st o = RDone s' (sink_add o text)
+            end
+        end.
+    Hypothesis Hinc : inc_sim.
+
+    Lemma stmt_correct : forall s, stmt_ok s.
+    Proof.
+      induction s as [t | e | c0 b0 e H H0 | k v t b0 e H H0 | g n e | g n b0 fs H | n kw b0 H | n | | ]
+        using stmt_ind'; unfold stmt_ok; intros lex lp pc b stk l sv c o Hwf Hpre Hc.
+      - (* SText *)
+        cbn [compile_node exec length result_ok] in *. apply code_at_cons in Hc as [Hi _].
+        exists l, sv. split; [reflexivity|]. split; [apply frames_eq_refl|]. cbn [target].
+        replace (pc + 1) with (S pc) by lia. apply step1. intros fu. eapply run_WriteText. exact Hi.
+      - (* SPrint *)
+        cbn [compile_node wf_stmt] in *. apply code_at_app in Hc as [Hc1 Hc2]. apply code_at_cons in Hc2 as [Hi _].
+        destruct Hpre as (Hlex & Hfr & Hpar & Hlp).
+        pose proof (expr_correct e lex pc b stk l sv c o Hwf Hlex Hfr Hpar Hc1) as E.
+        cbn [exec]. destruct (eval B e (absE b l sv)) as [v|x]; [|exact E].
+        unfold render_value. destruct (is_undefined v) eqn:Eu; cbn [result_ok].
+        + eapply steps_fail1; [exact E|]. intros fu. erewrite run_WriteTop by exact Hi. rewrite Eu. reflexivity.
+        + exists l, sv. split; [reflexivity|]. split; [apply frames_eq_refl|]. cbn [target].
+          eapply steps_step; [exact E|]. intros fu. erewrite run_WriteTop by exact Hi. rewrite Eu.
+          rewrite app_length. cbn [length]. cbv zeta. runpos.
+      - (* SIf *)
+        pose proof (list_from_stmts _ H) as Lb. pose proof (list_from_stmts _ H0) as Le. clear H H0.
+        cbn [wf_stmt] in Hwf. apply andb_prop in Hwf as [Hwf Hw3]. apply andb_prop in Hwf as [Hw1 Hw2].
+        destruct Hpre as (Hlex & Hfr & Hpar & Hlp).
+        assert (Hpre : pre lex lp b l) by (repeat split; assumption).
+        cbn [exec]. fold (exec_list B aesc inc b0 (absE b l sv)). fold (exec_list B aesc inc e (absE b l sv)).
+        destruct e as [|s0 r].
+        + (* no else *)
+          cbn [compile_node] in *. apply code_at_app in Hc as [Hc1 Hc2]. apply code_at_cons in Hc2 as [Hi Hc2].
+          pose proof (expr_correct c0 lex pc b stk l sv c o Hw1 Hlex Hfr Hpar Hc1) as E.
+          destruct (eval B c0 (absE b l sv)) as [v|x]; [|exact E].
+          replace (S (pc + length (compile_expr pc c0))) with (pc + length (compile_expr pc c0) + 1) in Hc2 by lia.
+          destruct (is_truthy v) eqn:Et.
+          * eapply result_ok_wrap with (pc1 := pc + length (compile_expr pc c0) + 1) (s1 := mk b stk l sv c).
+            { eapply steps_step; [exact E|]. intros fu. erewrite run_PopJumpIfFalse by exact Hi. rewrite Et. runpos. }
+            { apply (Lb lex lp _ b stk l sv c o Hw2 Hpre Hc2). }
+            { intros s' o'. rewrite !app_length. cbn [length].
+              match goal with |- steps ?p _ _ ?q _ _ => replace q with p by lia end. apply steps_refl. }
+          * cbn. exists l, sv. split; [reflexivity|]. split; [apply frames_eq_refl|].
+            rewrite out_caps_nil, out_sink_nil.
+            eapply steps_step; [exact E|]. intros fu. erewrite run_PopJumpIfFalse by exact Hi. rewrite Et.
+            rewrite !app_length. cbn [length]. runpos.
+        + (* else *)
+          cbn [compile_node] in *. apply code_at_app in Hc as [Hc1 Hc2]. apply code_at_cons in Hc2 as [Hi Hc2].
+          apply code_at_app in Hc2 as [Hc2 Hc3]. apply code_at_cons in Hc3 as [Hj Hc3].
+          pose proof (expr_correct c0 lex pc b stk l sv c o Hw1 Hlex Hfr Hpar Hc1) as E.
+          destruct (eval B c0 (absE b l sv)) as [v|x]; [|exact E].
+          replace (S (pc + length (compile_expr pc c0))) with (pc + length (compile_expr pc c0) + 1) in Hc2, Hj, Hc3 by lia.
+          destruct (is_truthy v) eqn:Et.
+          * eapply result_ok_wrap with (pc1 := pc + length (compile_expr pc c0) + 1) (s1 := mk b stk l sv c).
+            { eapply steps_step; [exact E|]. intros fu. erewrite run_PopJumpIfFalse by exact Hi. rewrite Et. runpos. }
+            { apply (Lb lex lp _ b stk l sv c o Hw2 Hpre Hc2). }
+            { intros s' o'. apply step1. intros fu. erewrite run_Jump by exact Hj.
+              rewrite ?app_length. cbn [length]. rewrite ?app_length. cbn [length]. runpos. }
+          * match type of Hc3 with code_at (S ?x) _ => replace (S x) with (x + 1) in Hc3 by lia end.
+            match type of Hc3 with code_at ?p _ =>
+              eapply result_ok_wrap with (pc1 := p) (s1 := mk b stk l sv c) end.
+            { eapply steps_step; [exact E|]. intros fu. erewrite run_PopJumpIfFalse by exact Hi. rewrite Et. runpos. }
+            { apply (Le lex lp _ b stk l sv c o Hw3 Hpre Hc3). }
+            { intros s' o'. rewrite ?app_length. cbn [length]. rewrite ?app_length. cbn [length].
+              match goal with |- steps ?p _ _ ?q _ _ => replace q with p by lia end. apply steps_refl. }
+      - (* SFor *)
+        pose proof (list_from_stmts _ H) as Lb. pose proof (list_from_stmts _ H0) as Le. clear H H0.
+        cbn [wf_stmt] in Hwf. apply andb_prop in Hwf as [Hwf Hw4]. apply andb_prop in Hwf as [Hwf Hw3].
+        apply andb_prop in Hwf as [Hw1 Hw2].
+        assert (Hv : v <> []) by (destruct v; [discriminate|discriminate]).
+        destruct Hpre as (Hlex & Hfr & Hpar & Hlp).
+        assert (Hpre : pre lex lp b l) by (repeat split; assumption).
+        rewrite compile_for_eq in *. cbv zeta in *.
+        set (ct := compile_expr pc t) in *.
+        set (hdr := [StartIterate (is_some k); StoreLocal v] ++ match k with Some k0 => [StoreLocal k0] | None => [] end) in *.
+        set (start := pc + length ct + length hdr) in *.
+        set (cb := compile_seq compile_node (S start) (Some start) b0) in *.
+        set (le := S start + length cb + 1) in *.
+        apply code_at_app in Hc as [Hc1 Hc2]. apply code_at_app in Hc2 as [Hc2 Hc3].
+        apply code_at_cons in Hc3 as [Hit Hc3]. apply code_at_app in Hc3 as [Hc3 Hc4].
+        apply code_at_cons in Hc4 as [Hj Hc4].
+        replace (pc + length ct + length hdr) with start in * by reflexivity.
+        replace (S (S start + length cb)) with le in Hc4 by (unfold le; lia).
+        assert (Hle : le <> 0) by (unfold le; lia).
+        assert (Hend : pc + length (ct ++ hdr ++ [Iterate le] ++ cb ++ [Jump start] ++ for_exit le (option_map fst lp) e)
+                       = le + length (for_exit le (option_map fst lp) e)).
+        { rewrite !app_length. cbn [length]. unfold le, start. lia. }
+        rewrite Hend.
+        pose proof (expr_correct t lex pc b stk l sv c o Hw1 Hlex Hfr Hpar Hc1) as E.
+        cbn [exec]. fold (exec_list B aesc inc b0). fold (exec_list B aesc inc e (absE b l sv)).
+        destruct (eval B t (absE b l sv)) as [cv|x]; [|exact E].
+        rewrite items_of_eq.
+        (* header *)
+        assert (Hhdr : forall items, iter_items cv = Some items -> is_some k && negb (is_map cv) = false ->
+                  steps pc (mk b stk l sv c) o start (mk b stk (init_frame k v items :: l) sv c) o).
+        { intros items Hitems Hkv. eapply steps_trans; [exact E|]. fold ct.
+          unfold hdr in Hc2. cbn [app] in Hc2. apply code_at_cons in Hc2 as [Hh1 Hc2]. apply code_at_cons in Hc2 as [Hh2 Hc2].
+          eapply steps_trans.
+          { apply step1. intros fu. erewrite run_StartIterate by exact Hh1. rewrite Hitems, Hkv. reflexivity. }
+          eapply steps_trans.
+          { apply step1. intros fu. eapply run_StoreLocal. exact Hh2. }
+          rewrite <- (header_frame k v items Hv). unfold start, hdr. destruct k as [k0|]; cbn [app length].
+          - apply code_at_cons in Hc2 as [Hh3 _]. apply step1. intros fu.
+            erewrite run_StoreLocal by exact Hh3. runpos.
+          - match goal with |- steps ?p _ _ ?q _ _ => replace q with p by lia end. apply steps_refl. }
+        destruct (iter_items cv) as [items|] eqn:Hitems.
+        2:{ cbn [result_ok]. eapply steps_fail1; [exact E|]. intros fu. fold ct in Hc2.
+            unfold hdr in Hc2. cbn [app] in Hc2. apply code_at_cons in Hc2 as [Hh1 _].
+            erewrite run_StartIterate by exact Hh1. rewrite Hitems. reflexivity. }
+        change (match k with Some _ => true | None => false end) with (is_some k).
+        destruct (is_some k && negb (is_map cv)) eqn:Hkv.
+        { cbn [result_ok]. eapply steps_fail1; [exact E|]. intros fu. fold ct in Hc2.
+          unfold hdr in Hc2. cbn [app] in Hc2. apply code_at_cons in Hc2 as [Hh1 _].
+          erewrite run_StartIterate by exact Hh1. rewrite Hitems, Hkv. reflexivity. }
+        specialize (Hhdr items eq_refl eq_refl).
+        destruct items as [|it rest].
+        + (* nothing to iterate: else body *)
+          eapply result_ok_wrap with (pc1 := le) (s1 := mk b stk (init_frame k v [] :: l) sv c).
+          { eapply steps_step; [exact Hhdr|]. intros fu. erewrite run_Iterate by exact Hit. reflexivity. }
+          { apply (exit_empty le lp e lex b stk (init_frame k v []) l sv c o eq_refl Hc4 Le Hw4 Hpre). }
+          { intros s' o'. apply steps_refl. }
+        + (* at least one item *)
+          assert (Hcb : code_at (S start) (compile_seq compile_node (S start) (Some start) b0)) by exact Hc3.
+          pose proof (for_loop_sim k v (length (it :: rest)) b0 start le b stk Lb Hle Hit Hcb Hj Hw3 Hpar
+                        (it :: rest) 0 (init_frame k v (it :: rest)) l sv c o
+                        (or_introl (conj eq_refl (conj eq_refl eq_refl))) ltac:(discriminate) Hfr) as L.
+          destruct (exec_iter (exec_list B aesc inc b0) k v (length (it :: rest)) (it :: rest) 0 (absE b l sv))
+            as [[[en1 t1] sg1]|x]; cbn [result_ok].
+          * destruct L as (-> & f' & l' & sv' & -> & Hf' & Hi' & Hs'). exists l', sv'. split; [reflexivity|].
+            split; [exact Hf'|]. cbn [target].
+            eapply steps_trans; [exact Hhdr|]. eapply steps_trans; [exact Hs'|].
+            apply exit_iterated; [exact Hi'|exact Hc4].
+          * eapply steps_fails; [exact Hhdr|exact L].
+      - (* SAssign *)
+        cbn [compile_node wf_stmt] in *. apply code_at_app in Hc as [Hc1 Hc2]. apply code_at_cons in Hc2 as [Hi _].
+        destruct Hpre as (Hlex & Hfr & Hpar & Hlp).
+        pose proof (expr_correct e lex pc b stk l sv c o Hwf Hlex Hfr Hpar Hc1) as E.
+        cbn [exec]. destruct (eval B e (absE b l sv)) as [v|x]; [|exact E].
+        cbn [result_ok target]. rewrite out_caps_nil, out_sink_nil, app_length. cbn [length].
+        destruct g.
+        + exists l, (ctx_set sv n v). split; [reflexivity|]. split; [apply frames_eq_refl|].
+          eapply steps_step; [exact E|]. intros fu. erewrite run_SetGlobal by exact Hi. runpos.
+        + destruct l as [|fr t].
+          * exists [], (ctx_set sv n v). split; [reflexivity|]. split; [constructor|].
+            eapply steps_step; [exact E|]. intros fu. erewrite run_SetI by exact Hi. runpos.
+          * exists (lf_store fr n v :: t), sv. split; [reflexivity|].
+            split; [constructor; [exists (ctx_set (lf_context fr) n v); reflexivity|apply frames_eq_refl]|].
+            eapply steps_step; [exact E|]. intros fu. erewrite run_SetI by exact Hi. runpos.
+      - (* SSetBlock *)
+        pose proof (list_from_stmts _ H) as Lb. clear H.
+        cbn [wf_stmt] in Hwf. apply andb_prop in Hwf as [Hw1 Hw2].
+        destruct Hpre as (Hlex & Hfr & Hpar & Hlp).
+        cbn [compile_node] in *. rewrite (compile_seq_lp_irrel b0 lex (S pc) (option_map fst lp) Hw1) in *.
+        cbn [app] in Hc. apply code_at_cons in Hc as [Hcap Hc]. apply code_at_app in Hc as [Hc1 Hc2].
+        apply code_at_cons in Hc2 as [Hend Hc2]. apply code_at_app in Hc2 as [Hc2 Hc3].
+        apply code_at_cons in Hc3 as [Hset _].
+        assert (Hpre0 : pre lex None b l) by (repeat split; assumption).
+        pose proof (Lb lex None (S pc) b stk l sv ([] :: c) o Hw1 Hpre0 Hc1) as Hb.
+        cbn [exec]. fold (exec_list B aesc inc b0 (absE b l sv)).
+        assert (S0 : steps pc (mk b stk l sv c) o (S pc) (mk b stk l sv ([] :: c)) o).
+        { apply step1. intros fu. eapply run_Capture. exact Hcap. }
+        cbn [option_map] in Hb.
+        destruct (exec_list B aesc inc b0 (absE b l sv)) as [[[en1 text] sg1]|x]; cbn [result_ok] in Hb.
+        2:{ cbn [result_ok]. eapply steps_fails; [exact S0|exact Hb]. }
+        destruct Hb as (l1 & sv1 & -> & Hf1 & Ht1).
+        destruct sg1; cbn [target] in Ht1; try contradiction.
+        cbn [out_caps out_sink app] in Ht1.
+        set (p1 := S pc + length (compile_seq compile_node (S pc) None b0)) in *.
+        assert (S1 : steps pc (mk b stk l sv c) o (S p1) (mk b (VStr text true :: stk) l1 sv1 c) o).
+        { eapply steps_trans; [exact S0|]. eapply steps_step; [exact Ht1|]. intros fu. eapply run_EndCapture. exact Hend. }
+        replace (p1 + 1) with (S p1) in * by lia.
+        pose proof (filters_ok fs lex (S p1) b stk l1 sv1 c o (VStr text true) Hw2
+                      (fun h => frames_eq_nonempty _ _ Hf1 (Hlex h)) (frames_eq_ok _ _ Hf1 Hfr) Hpar Hc2) as F.
+        destruct (apply_filters B fs (VStr text true) (absE b l1 sv1)) as [r|x]; cbn [result_ok].
+        2:{ eapply steps_fails; [exact S1|exact F]. }
+        cbn [target]. rewrite out_caps_nil, out_sink_nil.
+        cbn [app].
+        match goal with |- context [pc + length ?code] =>
+          replace (pc + length code) with (S (S p1 + length (compile_filters (S p1) fs)))
+            by (cbn [length]; rewrite ?app_length; cbn [length]; rewrite ?app_length; cbn [length]; unfold p1; lia)
+        end.
+        destruct g.
+        + exists l1, (ctx_set sv1 n r). split; [reflexivity|]. split; [exact Hf1|].
+          eapply steps_trans; [exact S1|]. eapply steps_step; [exact F|]. intros fu.
+          eapply run_SetGlobal. exact Hset.
+        + destruct l1 as [|fr t].
+          * exists [], (ctx_set sv1 n r). split; [reflexivity|]. split; [exact Hf1|].
+            eapply steps_trans; [exact S1|]. eapply steps_step; [exact F|]. intros fu.
+            erewrite run_SetI by exact Hset. reflexivity.
+          * exists (lf_store fr n r :: t), sv1. split; [reflexivity|].
+            split; [eapply frames_eq_trans; [exact Hf1|];
+                    constructor; [exists (ctx_set (lf_context fr) n r); reflexivity|apply frames_eq_refl]|].
+            eapply steps_trans; [exact S1|]. eapply steps_step; [exact F|]. intros fu.
+            erewrite run_SetI by exact Hset. reflexivity.
+      - (* SFilter *)
+        pose proof (list_from_stmts _ H) as Lb. clear H.
+        cbn [wf_stmt] in Hwf. apply andb_prop in Hwf as [Hw2 Hw1].
+        destruct Hpre as (Hlex & Hfr & Hpar & Hlp).
+        cbn [compile_node] in *. rewrite (compile_seq_lp_irrel b0 lex (S pc) (option_map fst lp) Hw1) in *.
+        unfold compile_kwargs in *.
+        set (p1 := S pc + length (compile_seq compile_node (S pc) None b0)) in *.
+        replace (p1 + 1) with (S p1) in * by lia.
+        assert (Hcode : Capture :: nil ++ compile_seq compile_node (S pc) None b0 ++ [EndCapture]
+                   ++ (compile_kws compile_expr (S p1) kw ++ [BuildMap (length kw)]) ++ [ApplyFilter n; WriteTop]
+                 = Capture :: compile_seq compile_node (S pc) None b0 ++ EndCapture ::
+                     (compile_kws compile_expr (S p1) kw ++ [BuildMap (length kw); ApplyFilter n]) ++ [WriteTop]).
+        { cbn [app]. f_equal. f_equal. f_equal. rewrite <- !app_assoc. reflexivity. }
+        cbn [app] in Hc, Hcode. rewrite Hcode in *. clear Hcode.
+        apply code_at_cons in Hc as [Hcap Hc]. apply code_at_app in Hc as [Hc1 Hc2].
+        apply code_at_cons in Hc2 as [Hend Hc2]. apply code_at_app in Hc2 as [Hc2 Hc3].
+        apply code_at_cons in Hc3 as [Hwt _].
+        assert (Hpre0 : pre lex None b l) by (repeat split; assumption).
+        pose proof (Lb lex None (S pc) b stk l sv ([] :: c) o Hw1 Hpre0 Hc1) as Hb.
+        cbn [exec]. fold (exec_list B aesc inc b0 (absE b l sv)).
+        assert (S0 : steps pc (mk b stk l sv c) o (S pc) (mk b stk l sv ([] :: c)) o).
+        { apply step1. intros fu. eapply run_Capture. exact Hcap. }
+        cbn [option_map] in Hb.
+        destruct (exec_list B aesc inc b0 (absE b l sv)) as [[[en1 text] sg1]|x]; cbn [result_ok] in Hb.
+        2:{ cbn [result_ok]. eapply steps_fails; [exact S0|exact Hb]. }
+        destruct Hb as (l1 & sv1 & -> & Hf1 & Ht1).
+        destruct sg1; cbn [target] in Ht1; try contradiction.
+        cbn [out_caps out_sink app] in Ht1. fold p1 in Ht1, Hend.
+        assert (S1 : steps pc (mk b stk l sv c) o (S p1) (mk b (VStr text true :: stk) l1 sv1 c) o).
+        { eapply steps_trans; [exact S0|]. eapply steps_step; [exact Ht1|]. intros fu. eapply run_EndCapture. exact Hend. }
+        pose proof (filter_ok kw n (all_expr_ok kw) lex (S p1) b stk l1 sv1 c o (VStr text true) Hw2
+                      (fun h => frames_eq_nonempty _ _ Hf1 (Hlex h)) (frames_eq_ok _ _ Hf1 Hfr) Hpar Hc2) as F.
+        cbn [apply_filters].
+        destruct (eval_kws (fun x => eval B x (absE b l1 sv1)) kw) as [kws|x]; cbn [result_ok].
+        2:{ eapply steps_fails; [exact S1|exact F]. }
+        destruct (apply_filter B n (VStr text true) kws) as [r|x]; cbn [result_ok].
+        2:{ eapply steps_fails; [exact S1|exact F]. }
+        assert (S2 : steps pc (mk b stk l sv c) o (S p1 + length (compile_kws compile_expr (S p1) kw) + 2)
+                       (mk b (r :: stk) l1 sv1 c) o) by (eapply steps_trans; [exact S1|exact F]).
+        assert (Hwt' : nth_error ch (S p1 + length (compile_kws compile_expr (S p1) kw) + 2) = Some WriteTop).
+        { rewrite <- Hwt. f_equal. rewrite app_length. cbn [length]. unfold p1. lia. }
+        unfold render_value. destruct (is_undefined r) eqn:Eu; cbn [result_ok].
+        + eapply steps_fail1; [exact S2|]. intros fu. erewrite run_WriteTop by exact Hwt'. rewrite Eu. reflexivity.
+        + exists l1, sv1. split; [reflexivity|]. split; [exact Hf1|]. cbn [target].
+          eapply steps_step; [exact S2|]. intros fu. erewrite run_WriteTop by exact Hwt'. rewrite Eu.
+          cbv zeta. cbn [length]. rewrite ?app_length. cbn [length]. rewrite ?app_length. cbn [length].
+          unfold p1. runpos.
+      - (* SInclude *)
+        cbn [compile_node exec length] in *. apply code_at_cons in Hc as [Hi _].
+        destruct Hpre as (Hlex & Hfr & Hpar & Hlp).
+        pose proof (Hinc n b l sv) as HI.
+        destruct (assoc_get (w_templates wd) n) as [t2|] eqn:Et.
+        + destruct c as [|c0 ct].
+          * specialize (HI o Hfr Hpar). cbv zeta in HI.
+            destruct (inc n (absE b l sv)) as [text|x]; cbn [result_ok].
+            -- destruct HI as (k0 & s' & Hk). exists l, sv. split; [reflexivity|]. split; [apply frames_eq_refl|].
+               cbn [target out_caps out_sink]. replace (pc + 1) with (S pc) by lia.
+               exists (S k0), k0. intros k. cbn [plus]. erewrite run_Include by exact Hi. rewrite Et. cbv zeta.
+               rewrite Hk. reflexivity.
+            -- destruct HI as (k0 & e0 & Hk). exists (S k0), e0. intros k. cbn [plus].
+               erewrite run_Include by exact Hi. rewrite Et. cbv zeta. rewrite Hk. reflexivity.
+          * specialize (HI (SinkBuf c0) Hfr Hpar). cbv zeta in HI.
+            destruct (inc n (absE b l sv)) as [text|x]; cbn [result_ok].
+            -- destruct HI as (k0 & s' & Hk). exists l, sv. split; [reflexivity|]. split; [apply frames_eq_refl|].
+               cbn [target out_caps out_sink]. replace (pc + 1) with (S pc) by lia.
+               exists (S k0), k0. intros k. cbn [plus]. erewrite run_Include by exact Hi. rewrite Et. cbv zeta.
+               rewrite Hk. reflexivity.
+            -- destruct HI as (k0 & e0 & Hk). exists (S k0), e0. intros k. cbn [plus].
+               erewrite run_Include by exact Hi. rewrite Et. cbv zeta. rewrite Hk. reflexivity.
+        + destruct (HI o Hfr Hpar) as [x Hx]. rewrite Hx. cbn [result_ok].
+          apply (fail1 _ _ _ ErrOther). intros fu. erewrite run_Include by exact Hi. rewrite Et. reflexivity.
+      - (* SBreak *)
+        cbn [wf_stmt] in Hwf. destruct lp as [[ls le]|]; [|discriminate].
+        cbn [compile_node exec length result_ok target] in *. apply code_at_cons in Hc as [Hi _].
+        destruct Hpre as (_ & _ & _ & (fr & t & -> & He)).
+        exists (fr :: t), sv. split; [reflexivity|]. split; [apply frames_eq_refl|].
+        rewrite out_caps_nil, out_sink_nil. apply step1. intros fu. erewrite run_Break by exact Hi. rewrite He. reflexivity.
+      - (* SContinue *)
+        cbn [wf_stmt] in Hwf. destruct lp as [[ls le]|]; [|discriminate].
+        cbn [compile_node exec length result_ok target option_map fst] in *. apply code_at_cons in Hc as [Hi _].
+        exists l, sv. split; [reflexivity|]. split; [apply frames_eq_refl|].
+        rewrite out_caps_nil, out_sink_nil. apply step1. intros fu. eapply run_Jump. exact Hi.
+    Qed.
+
+    Theorem body_correct : forall body, list_ok body.
+    Proof. intros body. apply list_from_stmts. apply Forall_forall. intros s _. apply stmt_correct. Qed.
+(*PARTF*)
+
+
+
   End Tpl.
 End Sim.
